@@ -41,6 +41,11 @@ impl<'a> World<'a> {
                     format!("pkid_out_of_range:zero:{}", self.ver()),
                     format!("request {key} is on the wire of connection #{idx} with packet id 0"),
                 );
+            } else if p > limit && p <= self.cfg.limit.max(1) {
+                // the statement bounds ids by the CONFIGURED limit; a lowered
+                // receive-maximum bounds the count (checked separately), and an
+                // id given out under a larger window has to be kept (C11)
+                self.rep.probe("id_above_negotiated_limit");
             } else if p > limit && is_new && !self.reqs[ri].was_parked {
                 // (a parked publish got its id on an earlier connection)
                 let lowered = self.conns[idx].limit_eff < self.cfg.limit;
@@ -138,13 +143,16 @@ impl<'a> World<'a> {
                     if c.ordered && qos == 1 {
                         if let (Some(f), Some((lf, lri))) = (ftx, c.last_ftx) {
                             if f < lf {
-                                let subs = self.reqs.iter().any(|r| r.kind != ReqKind::Pub && r.first_tx.is_some());
-                                let feature = if c.interrupted {
+                                // a SUBSCRIBE / UNSUBSCRIBE that took an id out of the cycle
+                                // is a cause of its own (the rotation point of
+                                // MqttState::clean assumes publishes only) and comes first
+                                let subs = self.reqs.iter().any(|r| r.kind != ReqKind::Pub && (r.first_tx.is_some() || r.accepted));
+                                let feature = if subs {
+                                    "ids_shared_with_subscribe"
+                                } else if c.interrupted {
                                     "failure_during_replay"
                                 } else if self.conns.iter().skip(1).any(|c| c.connack_sent && !c.sp) {
                                     "single_failure:after_no_session_reconnect"
-                                } else if subs {
-                                    "single_failure:ids_shared_with_subscribe"
                                 } else {
                                     "single_failure:publishes_only"
                                 };
@@ -764,6 +772,39 @@ impl<'a> World<'a> {
                         }
                         _ => None,
                     };
+                    // MQTT 5: a publish that names a topic alias which this connection
+                    // has not established is a protocol error, answered with a
+                    // DISCONNECT and not acknowledged. The client keeps its alias
+                    // table across connections, so an alias established on an earlier
+                    // one may still resolve: then either answer is accepted.
+                    let alias_class = match pk {
+                        Pk::Publish { topic, alias: Some(a), .. } if topic.is_empty() => {
+                            let sets = |w: &Pk| matches!(w, Pk::Publish { topic: t, alias: Some(b), .. } if !t.is_empty() && b == a);
+                            if self.conns[conn].written[..j].iter().any(sets) {
+                                0
+                            } else if self.conns[..conn].iter().any(|c| c.written.iter().any(sets)) {
+                                1
+                            } else {
+                                2
+                            }
+                        }
+                        _ => 0,
+                    };
+                    let need = if alias_class == 0 { need } else { None };
+                    if alias_class == 1 {
+                        self.rep.probe("alias_of_earlier_connection");
+                    }
+                    if alias_class == 2 {
+                        if self.conns[conn].client_disconnects == 0 {
+                            let p = pk.short();
+                            self.violate(
+                                "missing_disconnect:unknown_topic_alias".into(),
+                                format!("{p} names a topic alias no connection has established; it was surfaced by a poll that returned Ok on connection #{conn} and no DISCONNECT reached the wire"),
+                            );
+                            return;
+                        }
+                        self.rep.probe("unknown_alias_answered_with_disconnect");
+                    }
                     if let Some((code, pkid, name)) = need {
                         let c = &mut self.conns[conn];
                         let n = {
